@@ -11,7 +11,9 @@ import (
 // C04 — chain contexts apply their documented per-element rule in all three call forms.
 // Oracle: (1) the per-element model of the statement; (2) equality of the three call forms.
 
-const c04prelude = `Acc := {|l| {l: l, g: m{|x| v := x.f; Acc([*.l, v]) if v != nil}}}
+const c04prelude = `Acc := {|l| {l: l, g: m{|x| v := x.f; Acc([*.l, v]) if v != nil}, g2: m{|x, t| v := x.f2(t); Acc([*.l, v]) if v != nil}}}
+fv2 := {|x| x.f2("t")}
+gv2 := {|acc, x| acc.g2(x, "t")}
 fv := {|x| x.f}
 gv := {|acc, x| acc.g(x)}
 unacc := {|r| r.l if r != nil}
@@ -28,11 +30,11 @@ const (
 func c04elem(k int, beh string) string {
 	switch beh {
 	case bVal:
-		return fmt.Sprintf(`{id: %d, f: m{"C%d".p; %d}}`, k, k, 100+k)
+		return fmt.Sprintf(`{id: %d, f: m{"C%d".p; %d}, f2: m{|t| "C%d".p; [%d, t]}}`, k, k, 100+k, k, 100+k)
 	case bNil:
-		return fmt.Sprintf(`{id: %d, f: m{"C%d".p; nil}}`, k, k)
+		return fmt.Sprintf(`{id: %d, f: m{"C%d".p; nil}, f2: m{|t| "C%d".p; nil}}`, k, k, k)
 	case bRaise:
-		return fmt.Sprintf(`{id: %d, f: m{"C%d".p; raise ValueErr.new("m%d")}}`, k, k, k)
+		return fmt.Sprintf(`{id: %d, f: m{"C%d".p; raise ValueErr.new("m%d")}, f2: m{|t| "C%d".p; raise ValueErr.new("m%d")}}`, k, k, k, k, k)
 	}
 	return "nil"
 }
@@ -246,6 +248,35 @@ func runC04(w *fw.W) {
 				for _, add := range adds {
 					// ---- list chains
 					lm := c04listModel(add, behs)
+					if lm.kind == "SKIP" {
+						// a nil element under ~@: the statement leaves the value open, but the three forms must still agree
+						var outs []*interp.Obs
+						for _, src := range []string{recv + add + "@f", recv + add + "@{|x| x.f}", recv + add + "@^fv"} {
+							w.Note(src)
+							outs = append(outs, ip.Run(setup+src, interp.Options{}))
+							cells++
+						}
+						c04formEq(&vs, add+"@", rk, behs, outs)
+					}
+					if lm.kind != "SKIP" {
+						// the same chain with an explicit call argument: `xs@f2("t")` ≡ `xs@{|x| x.f2("t")}` ≡ `xs@^fv2`
+						parts2 := make([]string, len(lm.parts))
+						for i, p := range lm.parts {
+							parts2[i] = p
+							if len(p) == 3 && p[0] == '1' {
+								parts2[i] = "[" + p + `, "t"]`
+							}
+						}
+						lm2 := lm
+						if lm2.isErr && lm2.msg == "property `f` is not defined." {
+							lm2.msg = "property `f2` is not defined."
+						}
+						var outs2 []*interp.Obs
+						for _, f := range []struct{ name, src string }{{"prop+arg", recv + add + `@f2("t")`}, {"literal+arg", recv + add + `@{|x| x.f2("t")}`}, {"var+arg", recv + add + "@^fv2"}} {
+							outs2 = append(outs2, judge(add+"@", f.name, f.src, lm2, render(parts2)))
+						}
+						c04formEq(&vs, add+"@ (with call argument)", rk, behs, outs2)
+					}
 					if lm.kind != "SKIP" {
 						forms := map[string]string{"prop": recv + add + "@f", "literal": recv + add + "@{|x| x.f}", "var": recv + add + "@^fv"}
 						var outs []*interp.Obs
@@ -306,6 +337,32 @@ func runC04(w *fw.W) {
 					}
 					if add != "&" {
 						c04formEq(&vs, add+"$", rk, behs, routs)
+					}
+					want2 := "nil"
+					if !rm.isErr && !rm.accNil {
+						var ps []string
+						for _, p := range rm.accParts {
+							ps = append(ps, "["+p+`, "t"]`)
+						}
+						want2 = "[" + strings.Join(ps, ", ") + "]"
+					}
+					rm2 := rm
+					if rm2.isErr && rm2.msg == "property `g` is not defined." {
+						rm2.msg = "property `g2` is not defined."
+					}
+					if rm2.isErr && rm2.msg == "property `f` is not defined." {
+						rm2.msg = "property `f2` is not defined."
+					}
+					var routs2 []*interp.Obs
+					for _, f := range []struct{ name, src string }{
+						{"prop+arg", "unacc(" + recv + add + `$(Acc([]))g2("t"))`},
+						{"literal+arg", "unacc(" + recv + add + `$(Acc([])){|acc, x| acc.g2(x, "t")})`},
+						{"var+arg", "unacc(" + recv + add + "$(Acc([]))^gv2)"},
+					} {
+						routs2 = append(routs2, judge(add+"$", f.name, f.src, rm2, want2))
+					}
+					if add != "&" {
+						c04formEq(&vs, add+"$ (with call argument)", rk, behs, routs2)
 					}
 				}
 				if sample == "" && len(behs) == 3 && nontrivial {
